@@ -1,6 +1,6 @@
 /-
-C19 — property theorems (statements only depend on Model.lean + the definitions `loopSum`, `Closed`,
-`leftOf`, `dirEdgeSum`, `EdgePaired`, `PlanarStar` of Model.lean).
+C19 — property theorems (statements only depend on Model.lean, including its specification vocabulary
+`loopSum`, `Closed`, `leftOf`, `dirEdgeSum`, `EdgePaired`, `dirEdges`, `PlanarStar`).
 
 Property: computed cell volumes are positive and sum to the domain measure, face normals have length
 equal to the face area and point out of the cell with positive sign, for every cell the signed sum
@@ -128,7 +128,9 @@ theorem oriented_grid_cells_closed (g : Grid2) (meanLen : Rat)
       intro f hf
       obtain ⟨e, he, rfl⟩ := List.mem_map.mp hf
       exact hwf c hc e he) h1
-  simpa [Grid2.cellOFaces, Grid2.oface, Grid2.ofaceOfI, List.map_map, Function.comp_def] using this
+  have e : g.cellOFaces c = (c.map g.iface).map (fun f => (⟨g.node f.1, g.node f.2.1, f.2.2⟩ : OFace)) := by
+    simp only [Grid2.cellOFaces, List.map_map]; rfl
+  rw [e]; exact this
 
 /-- Positivity: for a counter-clockwise convex cell (all signs +1, every node on the left of or on
     every face line, at least one strictly), every sub-triangle about the average of the face centres is
@@ -283,7 +285,7 @@ theorem line_volumes_sum (x0 : Rat) (xs : List Rat) (hinc : ∀ p ∈ pairs (x0 
   split
   · ring
   · have : p.1 = p.2 := by linarith
-    rw [this]; ring
+    rw [this]
 
 /-! ## 3-D -/
 
